@@ -7,7 +7,7 @@
    C16_model_correct puts all clauses together for the model.  (The same link is also evaluated by the kernel on
    every generated case: component 3 of mismatches16.) *)
 From Coq Require Import List ZArith QArith Permutation.
-From LNML Require Import Model.Morph Model.Section Proofs.MorphP1 Proofs.SectionP Proofs.SectionP2 Proofs.SectionP3 Proofs.SectionP4.
+From LNML Require Import Model.Morph Model.Section Proofs.MorphP1 Proofs.SectionP Proofs.SectionP2 Proofs.SectionP3 Proofs.SectionP4 Proofs.SectionP5.
 Import ListNotations.
 Open Scope Z_scope.
 
@@ -30,11 +30,12 @@ Print Assumptions C16_maximal_chains.
 
 (* nothing else is altered (optimise flag off): ids, parents, distal points and document order of the segments are
    unchanged; a proximal point is only added where there was none and it is the effective proximal point of the
-   ORIGINAL cell; every pre-existing group (id not of the generated form) is still there, and keeps its position and
-   content when the groups are not reordered *)
+   ORIGINAL cell; every segment's length is unchanged; every pre-existing group (id not of the generated form) is still
+   there, and keeps its position and content when the groups are not reordered *)
 Theorem C16_alters_nothing : forall c gs root reorder st',
   all_ok c -> create_branches c gs root reorder false = Ok st' ->
   cell_upd c (st_segs st') /\
+  (forall s, In s c -> seg_length (fuel_of (st_segs st')) (st_segs st') (sid s) = seg_length (fuel_of c) c (sid s)) /\
   (forall g, In g gs -> gen_name (gid g) = false -> In g (st_groups st')) /\
   (reorder = false -> keep gs (st_groups st')).
 Proof. exact create_branches_preserves. Qed.
@@ -79,6 +80,36 @@ Theorem C16_model_correct : forall c gs t,
     cell_upd c segs'.
 Proof. exact create_branches_correct. Qed.
 Print Assumptions C16_model_correct.
+
+(* generated names determine the segment id (decimal printing is injective and underscore-free), so the freshness
+   hypothesis reduces to: the old group ids are distinct and none has the generated form *)
+Theorem C16_names_injective : forall n id n' id', mkname n id = mkname n' id' -> n = n' /\ id = id'.
+Proof. exact mkname_inj. Qed.
+Print Assumptions C16_names_injective.
+
+Theorem C16_model_correct_fresh : forall c gs t,
+  all_ok c -> tree_adjb (adjacency c) t = true -> NoDup (preorder t) -> incl (preorder t) (ids c) ->
+  NoDup (map gid gs) -> (forall g, In g gs -> gen_name (gid g) = false) ->
+  exists segs' new,
+    create_branches c gs (root_id t) false false = Ok (mkst segs' (gs ++ new)) /\
+    List.concat (map gmembers new) = preorder t /\ NoDup (List.concat (map gmembers new)) /\
+    (forall g, In g new -> gnlx g = Some section_nlx /\ gincludes g = [] /\
+       exists s e, branch_start t s /\ chain s (gmembers g) e /\ List.length (subtrees e) <> 1%nat) /\
+    (forall n kids, subtree t (Node n kids) -> children c n = map root_id kids) /\
+    (forall g, In g new -> hd 0 (gmembers g) <> root_id t -> has_prox segs' (hd 0 (gmembers g))) /\
+    (forall s, find_seg c (root_id t) = Some s -> sprox s <> None \/ sparent s <> None -> has_prox segs' (root_id t)) /\
+    cell_upd c segs'.
+Proof. exact create_branches_correct_fresh. Qed.
+Print Assumptions C16_model_correct_fresh.
+
+(* the hypotheses of C16_model_correct are decidable: hyps_ok is evaluated by the kernel on every generated case
+   (component 4 of mismatches16) *)
+Theorem C16_hypotheses_decidable : forall c gs root, hyps_ok c gs root = true ->
+  exists t, root_id t = root /\ wf c /\ all_ok c /\ tree_adjb (adjacency c) t = true /\ NoDup (preorder t) /\
+            incl (preorder t) (ids c) /\
+            NoDup (map gid gs ++ map gid (name_groups (Z.of_nat (List.length gs)) 0 (sect_tree t []))).
+Proof. exact hyps_ok_sound. Qed.
+Print Assumptions C16_hypotheses_decidable.
 
 Theorem C16_domain_inhabited : all_ok MorphP5.ex_cell.
 Proof. exact ex_all_ok. Qed.
